@@ -484,3 +484,60 @@ pub fn lexchain_case(_tag: &str, case: &Value) -> Outcome {
     }
     o
 }
+
+/// mode `lextrace`: RECORD direction.  Generates `n` random texts (seeded),
+/// lexes them with the implementation and writes one NDJSON record per text
+/// in the vocabulary of TraceLexer.tla.  Nothing is judged here.
+pub fn record_lextrace(out_path: &str, summary_path: &str, opts: &HashMap<String, String>) {
+    use std::io::Write;
+    let n: usize = opts.get("n").and_then(|s| s.parse().ok()).unwrap_or(200);
+    let maxlen: usize = opts.get("maxlen").and_then(|s| s.parse().ok()).unwrap_or(120);
+    let seed: u64 = opts.get("seed").and_then(|s| s.parse().ok()).unwrap_or(1);
+    let mut rng = Rng::new(seed);
+    let pieces: Vec<&str> = vec![
+        "(", ")", "[", "]", "{", "}", "=", "#", "<", "<=", ">", ">=", ":=", ":", ",", ";", "+", "-", "*", "/", "if", "else",
+        "while", "array", "of", "proc", "ref", "type", "var", "x", "_", "ifx", "If", "a_1", "main", "0", "007", "123456789",
+        "42", "0x0", "0xfF", "0x7ffffff", "'a'", "'\\n'", "'''", "'\\'", "'\u{142}'", "' '", "//\n", "// x \n", "//\u{20AC}'//\n",
+        " ", " ", " ", "\n", "\t", "\r\n", "  ", "'", "\\", "\u{142}", "\u{20AC}", "\u{1F600}", "0x", "//", "$", "\"", "'\\n",
+    ];
+    let mut f = std::io::BufWriter::new(std::fs::File::create(out_path).expect("cannot create trace file"));
+    let mut panics = 0usize;
+    let mut written = 0usize;
+    for _ in 0..n {
+        let target = 1 + rng.below(maxlen);
+        let mut text = String::new();
+        while text.chars().count() < target {
+            text.push_str(pieces[rng.below(pieces.len())]);
+        }
+        let names: Vec<String> = text.chars().filter_map(char_name).collect();
+        let toks = match guard(AssertUnwindSafe(|| lexer::lex(&text))) {
+            Ok(t) => t,
+            Err(m) => {
+                panics += 1;
+                // a panic is recorded as an empty token list: the specification rejects it (tiling)
+                let rec = json!({"text": names, "toks": [], "panic": m});
+                writeln!(f, "{}", rec).unwrap();
+                written += 1;
+                continue;
+            }
+        };
+        let tj: Vec<Value> = toks
+            .iter()
+            .map(|t| {
+                let (v, s): (u64, Vec<String>) = match &t.token_type {
+                    TokenType::Ident(s) | TokenType::Unknown(s) => (0, s.chars().filter_map(char_name).collect()),
+                    TokenType::Comment(s) => (0, s.chars().filter_map(char_name).collect()),
+                    TokenType::Char(c) => (0, char_name(*c).into_iter().collect()),
+                    TokenType::Int(IntResult::Int(i)) | TokenType::Hex(IntResult::Int(i)) => (*i as u64, vec![]),
+                    _ => (0, vec![]),
+                };
+                json!({"k": kind_name(&t.token_type), "b": t.range.start, "e": t.range.end, "v": v, "s": s, "nerr": t.errors.len()})
+            })
+            .collect();
+        writeln!(f, "{}", json!({"text": names, "toks": tj})).unwrap();
+        written += 1;
+    }
+    f.flush().unwrap();
+    std::fs::write(summary_path, serde_json::to_vec(&json!({"records": written, "panics": panics})).unwrap()).unwrap();
+    println!("fe lextrace: recorded {written} texts ({panics} panics) into {out_path}");
+}
